@@ -60,6 +60,27 @@ def visible_vars(fr: Frame) -> dict:
     return env
 
 
+class VMapped(V):
+    """(f(x) for x in <symbolic set>) with a pure element expression: the image of the set, kept symbolic"""
+    kind = "mapped"
+
+    def __init__(self, base, var, elt, frame):
+        self.base = base
+        self.var = var
+        self.elt = elt
+        self.frame = frame
+
+    def image_of(self, ip, x):
+        f2 = Frame(self.frame.finfo, self.frame, cls=self.frame.cls)
+        f2.vars[self.var] = x
+        saved = ip.spec_mode
+        ip.spec_mode = True
+        try:
+            return ip.eval(self.elt, f2)
+        finally:
+            ip.spec_mode = saved
+
+
 class VIter(V):
     """a view produced by dict.items()/keys()/values() on a symbolic map, or an opaque iterable"""
     kind = "iter"
